@@ -29,7 +29,7 @@ theorem inflate_consumes_exactly_the_raw_stream (calls : List (Array UInt8 × Na
     (hfirst : ∀ j, j < k → ((runInfl (Model.Infl.flagIgnoreAdler + Model.Infl.flagHasMoreInput) WB.fresh #[] calls)[j]?.map (·.2.2.status)) ≠ some rStreamEnd)
     (hend : ((runInfl (Model.Infl.flagIgnoreAdler + Model.Infl.flagHasMoreInput) WB.fresh #[] calls)[k]?.map (·.2.2.status)) = some rStreamEnd) :
     consumedUpTo (runInfl (Model.Infl.flagIgnoreAdler + Model.Infl.flagHasMoreInput) WB.fresh #[] calls) k = (res.bitsUsed + 7) / 8 := by
-  have h := (C13.safe_stream_end res.out _ _ #[] 0 (C13.valid_raw_stream_through_inflate calls b0 res hspec) k hk hfirst hend).2
+  have h := (C13.safe_stream_end res.out _ _ #[] 0 (C13.valid_raw_stream_through_inflate calls b0 res hspec) k hk hfirst hend).2.1
   rw [Nat.zero_add] at h
   exact h
 
@@ -43,7 +43,7 @@ theorem inflate_consumes_exactly_the_zlib_stream (calls : List (Array UInt8 × N
     (hend : ((runInfl (Model.Infl.flagParseZlib + Model.Infl.flagComputeAdler + Model.Infl.flagHasMoreInput) WB.fresh #[] calls)[k]?.map (·.2.2.status)) = some rStreamEnd) :
     consumedUpTo (runInfl (Model.Infl.flagParseZlib + Model.Infl.flagComputeAdler + Model.Infl.flagHasMoreInput) WB.fresh #[] calls) k
       = (zr.inner.bitsUsed + 7) / 8 + 4 := by
-  have h := (C13.safe_stream_end zr.inner.out _ _ #[] 0 (C13.valid_zlib_stream_through_inflate calls b0 zr hspec) k hk hfirst hend).2
+  have h := (C13.safe_stream_end zr.inner.out _ _ #[] 0 (C13.valid_zlib_stream_through_inflate calls b0 zr hspec) k hk hfirst hend).2.1
   rw [Nat.zero_add] at h
   have hl := zlib_length #[] 32768 _ zr hspec
   unfold consumedUpTo; rw [h, hl]
